@@ -94,6 +94,7 @@ def steps():
     add("summarize(n,m)", lambda x, c: x >> pdt.summarize(n=pdt.count(), m=C.h.max()), effect="destroy", needs=("h",))
     add("summarize(sa)", lambda x, c: x >> pdt.summarize(sa=C.a.sum(), ca=C.a.count()), effect="destroy", needs=("a",))
     add("left_join(u)", lambda x, c: x >> pdt.left_join(c.u, x.a == c.u.a), effect="destroy", needs=("a",), breaks=True)
+    add("full_join(u)", lambda x, c: x >> pdt.full_join(c.u, x.a == c.u.a), effect="destroy", needs=("a",), breaks=True)
     add("left_join(u,eq&<)", lambda x, c: x >> pdt.left_join(c.u, (x.a == c.u.a) & (x.h + 4 < c.u.h)), effect="destroy", needs=("a", "h"), breaks=True)
     add("inner_join(u,<)", lambda x, c: x >> pdt.inner_join(c.u, (x.a < c.u.a) & (x.h < c.u.h)), effect="destroy", needs=("a", "h"), breaks=True)
     def _un(x, c, r):
